@@ -36,6 +36,10 @@ func (e *Engine) setupVerifIntrinsics() {
 		}
 		return sum
 	}
+	in[p+"LiveGoroutines"] = func(e *Engine, fr *frame, a []Value) Value {
+		e.drainGoroutines()
+		return e.c64(int64(len(e.leakedGoroutines())))
+	}
 	in[p+"Symbolic"] = func(e *Engine, fr *frame, a []Value) Value { return e.ts.tru }
 	in[p+"Byte"] = func(e *Engine, fr *frame, a []Value) Value { return e.namedVar(e.strArg(a[0]), 8) }
 	in[p+"Bool"] = func(e *Engine, fr *frame, a []Value) Value {
